@@ -5,6 +5,7 @@ import (
 	"encoding/json"
 	"flag"
 	"fmt"
+	"hash/fnv"
 	"math/rand"
 	"os"
 	"sort"
@@ -476,9 +477,19 @@ func langsFor(c *genCase, rng *rand.Rand, alsoTmpl int, n int) []string {
 
 var required *genCase
 
-func readCases(path string, fn func(n int, c *genCase)) {
+// readCases calls fn for every case with a random source derived from the seed and the case itself: TLC's workers
+// write the lines in no particular order, and the spelling of a case must not depend on that order.
+func readCases(path string, seed int64, fn func(n int, c *genCase, rng *rand.Rand)) {
 	n := 0
+	seenLine := map[uint64]bool{}
 	err := tr.ReadCases(path, func(line int, raw []byte) {
+		h := fnv.New64a()
+		h.Write(raw)
+		if seenLine[h.Sum64()] { // -simulate may reach the same document twice
+			return
+		}
+		seenLine[h.Sum64()] = true
+		rng := rand.New(rand.NewSource(seed ^ int64(h.Sum64()>>1)))
 		c := &genCase{}
 		if err := json.Unmarshal(raw, c); err != nil {
 			fatalf("htmldoc: bad case line %d: %v", line, err)
@@ -488,7 +499,7 @@ func readCases(path string, fn func(n int, c *genCase)) {
 			return
 		}
 		n++
-		fn(n, c)
+		fn(int(h.Sum64()%1000003), c, rng)
 	})
 	if err != nil {
 		fatalf("htmldoc: %v", err)
@@ -514,12 +525,11 @@ func Replay(args []string) {
 	muts := fs.Int("muts", 1, "mutated documents per case")
 	alsoTmpl := fs.Int("alsotmpl", 0, "run every n-th plain document under a template dialect as well (0: never)")
 	fs.Parse(args)
-	rng := rand.New(rand.NewSource(*seed))
 	w := tr.NewWriter(*out)
 	sum := summary{Suite: "htmldoc", Mode: "replay", Labels: map[string]int{}, AtomCls: map[string]int{}}
 	seen := map[string]bool{}
 	tid := 0
-	readCases(*cases, func(n int, c *genCase) {
+	readCases(*cases, *seed, func(n int, c *genCase, rng *rand.Rand) {
 		sum.Cases++
 		for _, e := range c.Exp {
 			sum.Labels[e.Lbl]++
@@ -591,7 +601,6 @@ func Inputs(args []string) {
 	seed := fs.Int64("seed", 1, "seed")
 	muts := fs.Int("muts", 2, "mutations per document")
 	fs.Parse(args)
-	rng := rand.New(rand.NewSource(*seed))
 	f, err := os.Create(*out)
 	if err != nil {
 		fatalf("htmldoc: %v", err)
@@ -599,7 +608,7 @@ func Inputs(args []string) {
 	defer f.Close()
 	enc := json.NewEncoder(f)
 	sum := summary{Suite: "htmldoc", Mode: "inputs"}
-	readCases(*cases, func(n int, c *genCase) {
+	readCases(*cases, *seed, func(n int, c *genCase, rng *rand.Rand) {
 		sum.Cases++
 		for _, lang := range langsFor(c, rng, 0, n) {
 			pair, _, _ := dialectOf(lang)
